@@ -206,6 +206,73 @@ def r_reserve_before_lower(rep, prog):
             rep.check(good, rule, "%s|counter-guard" % fn, "takes frames only if self.free() >= n",
                       "%s can succeed although the counter is smaller than the request (an offline tree has counter 0)" % fn,
                       b.blocks[bi]["stmts"][si]["span"])
+    r_filter_honoured(rep, prog, rule)
+
+
+def r_filter_honoured(rep, prog, rule="R-RESERVE-BEFORE-LOWER"):
+    """The reservation counter that is charged belongs to the requested tree: LocalTree::get hands out a reservation only if
+    no tree was named or its own tree is the named one, LocalTree::put only adds to the reservation of that tree, and the
+    Locals front ends forward their `tree` argument to it."""
+    LT = "llfree::local::LocalTree::"
+    g = lib.need_body(prog, LT + "get")
+    rep.saw(LT + "get")
+    gtm = T.Terms(g, prog)
+    somes = [bi for bi, si, rv in lib.assignments_to_return(g) if si != "term" and rv["k"] == "aggregate" and rv["kind"].get("variant") == "Some"]
+    ok = bool(somes)
+    for bi in somes:
+        hit = False
+        for s_, d_ in lib.controlling_edges(g, bi):
+            c = gtm.operand(g.term(s_)["discr"])
+            pol = lib.bool_edge_polarity(g, s_, d_)
+            if c[0] == "call" and c[1] == "core::option::Option::is_none_or" and pol is True and T.canon(c[2][0]) == ("p", "tree"):
+                clos = [x for x in T.walk(c[2][1]) if x[0] == "agg" and x[1].startswith("closure:")]
+                cb = prog.body(clos[0][1][len("closure:"):]) if clos else None
+                if cb is not None:
+                    ctm = T.Terms(cb, prog)
+                    for rb, si, rv in lib.assignments_to_return(cb):
+                        r = T.canon(ctm.call_term(rb) if si == "term" else ctm.rvalue(rv))
+                        is_eq = (r[0] == "call" and r[1].endswith(("PartialEq>::eq", "PartialEq::eq"))) or (r[0] == "bin" and r[1] == "Eq")
+                        args = r[2] if r[0] == "call" else (r[2], r[3])
+                        own = ("call", "llfree::bitfield::RowId::as_tree", (("call", LT + "row", (("up", "self"),)),))
+                        if is_eq and own in args and any(a[0] == "p" for a in args):
+                            hit = True
+            if c[0] == "discr" and T.canon(T.strip_refs(c[1])) == ("p", "tree") and False:
+                pass
+        ok = ok and hit
+    rep.check(ok, rule, "LocalTree::get|tree-filter", "a reservation is charged only if no tree is named or it reserves the named tree",
+              "LocalTree::get hands out a reservation without `tree.is_none_or(|i| self.row().as_tree() == i)`: a targeted "
+              "allocation charges a reservation of another tree, whose counter then disagrees with its bitfields", g.span)
+    p_ = lib.need_body(prog, LT + "put")
+    ptm = T.Terms(p_, prog)
+    somes = [bi for bi, si, rv in lib.assignments_to_return(p_) if si != "term" and rv["k"] == "aggregate" and rv["kind"].get("variant") == "Some"]
+    ok = bool(somes)
+    for bi in somes:
+        hit = False
+        for s_, d_ in lib.controlling_edges(p_, bi):
+            c = T.canon(ptm.operand(p_.term(s_)["discr"]))
+            pol = lib.bool_edge_polarity(p_, s_, d_)
+            is_eq = (c[0] == "call" and c[1].endswith(("PartialEq>::eq", "PartialEq::eq"))) or (c[0] == "bin" and c[1] == "Eq")
+            is_ne = (c[0] == "call" and c[1].endswith(("PartialEq>::ne", "PartialEq::ne"))) or (c[0] == "bin" and c[1] == "Ne")
+            args = (c[2] if c[0] == "call" else (c[2], c[3])) if (is_eq or is_ne) else ()
+            own = ("call", "llfree::bitfield::RowId::as_tree", (("call", LT + "row", (("p", "self"),)),))
+            if own in args and ("p", "tree") in args and ((is_eq and pol is True) or (is_ne and pol is False)):
+                hit = True
+        ok = ok and hit
+    rep.check(ok, rule, "LocalTree::put|same-tree", "frames are added only to the reservation of their own tree",
+              "LocalTree::put adds frames to a reservation without `self.row().as_tree() == tree`", p_.span)
+    for fn, idx in (("llfree::local::Locals::get", None), ("llfree::local::Locals::demote_any", None)):
+        fwd = False
+        for cb in prog.crate("llfree").closures_of(fn):
+            ctm = T.Terms(cb, prog)
+            for bi, t in cb.calls_to(LT + "get"):
+                fwd = fwd or T.canon(ctm.operand(t["args"][1])) == ("up", "tree")
+        rep.check(fwd, rule, "%s|forwards-tree" % fn, "forwards its tree filter to LocalTree::get",
+                  "%s does not pass its `tree` argument on to LocalTree::get" % fn, lib.need_body(prog, fn).span)
+    sa = lib.need_body(prog, "llfree::local::Locals::steal_any")
+    stm = T.Terms(sa, prog)
+    fwd = any(T.canon(stm.operand(t["args"][3])) == ("p", "tree") for bi, t in sa.calls_to("llfree::local::Locals::get"))
+    rep.check(fwd, rule, "Locals::steal_any|forwards-tree", "forwards its tree filter to Locals::get",
+              "Locals::steal_any does not pass its `tree` argument on", sa.span)
 
 
 def r_online_flow(rep, prog):
@@ -267,3 +334,6 @@ def run(rep, programs):
     r_change_guard(rep, prog)
     r_reserve_before_lower(rep, prog)
     r_online_flow(rep, prog)
+    # a change without a tree id finds its tree with Trees::search: the search has to visit every tree
+    from props import c10
+    c10.r_global_search(rep, prog)
